@@ -209,7 +209,8 @@ StepParse(e) ==
 
 StepReset(e) ==
   /\ e.a = "reset"
-  /\ ref' = [set |-> TRUE, ir |-> cur]
+  \* the reference is what the *preceding parse* returned; when that parse raised (reported there) there is nothing to compare with
+  /\ ref' = [set |-> (l > 1 /\ T.ev[l - 1].a = "parse" /\ T.ev[l - 1].exc = "none"), ir |-> cur]
   /\ cur' = T.init
   /\ art' = NoArt
   /\ last' = NoLast
